@@ -9,6 +9,11 @@ CHECKS = {
          "Every closed program up to the node bound over the stated production alphabets is evaluated by a reference interpreter written from the specification and by the implementation, in two concrete syntaxes; outcomes must agree. Exhaustive within the bound, which is where feature-interaction bugs of the evaluator live.",
          "Trusted: refeval.rs as the specification's semantics on the modelled subset; programs beyond the node bound or outside the alphabet are not covered.",
          "DESIGN.md §4 C02"),
+ "C03": ("model_checking",
+         "explicit-state exploration of the real collector (all heap shapes and operation sequences within bounds) against a reachability model; exhaustive placement of collections between evaluator steps",
+         "The real collector is driven through hook H1 over every heap shape (<=4 nodes) and every operation sequence (27 operations, depth 8/10) and compared with a reachability model after every transition; collections are placed after every evaluator step / at every single step / at every pair of steps of every corpus program (hook H2) and outcomes, traces and step counts must equal the collection-free run; after dropping results one collection must return to the exact baseline object count.",
+         "Trusted: the test node type of hook H1 and the schedule hook H2 add no logic to the collector; heaps above the node bound are covered only through evaluator runs.",
+         "DESIGN.md §4 C03"),
 }
 def main():
     hooks = subprocess.run(["git","-C","/repo","log","--format=%H %s"],capture_output=True,text=True).stdout.splitlines()
